@@ -1454,6 +1454,10 @@ func (cs *ConsensusState) addVote(vote *types.Vote, peerKey string) (added bool,
 			// fmt.Errorf("tryAddVote: Wrong height, not a LastCommit straggler commit.")
 			return added, ErrVoteHeightMismatch
 		}
+		if cs.LastCommit == nil {
+			// no previous height (first block): there is no last commit a vote could belong to
+			return added, ErrVoteHeightMismatch
+		}
 		added, err = cs.LastCommit.AddVote(vote)
 		if added {
 			log.Debug("Added to lastPrecommits: " + cs.LastCommit.StringShort())
